@@ -31,7 +31,7 @@ ASSUMPTIONS = [
     "known finding C01-false-cycle: a violation whose stale location's task lies on a cycle of the ordering graph (which, the data flow being acyclic, exists only through container-level target/dependency overlap) is matched by signature",
 ]
 BOUNDS = {
-    "quick": "histories of 5 operations over {a,b,c} with a reduced operation set (value / 2 expression shapes / unregister); histories of <=3 operations over {a,b,n.x,l0} (one member per nested container) and <=3 over {n.x,n.y,n.z} (siblings); "
+    "quick": "four prefixes (computed-key reads l[abs(b)%2]; the list l defined as a whole with readers inside) followed by <=2 operations over {a,b,c,l0,l1}; histories of 5 operations over {a,b,c} with a reduced operation set (value / 2 expression shapes / unregister); histories of <=3 operations over {a,b,n.x,l0} (one member per nested container) and <=3 over {n.x,n.y,n.z} (siblings); "
              "inductive step: every set of <=2 definitions over {a,b,n.x,l0,l1} registered in every order, then one arbitrary operation; "
              "chains/fans of 1200..3000 tasks with symbolic head (pure build)",
     "thorough": "the 5-operation histories on the compiled build; histories <=4 over {a,b,n.x,l0}, <=3 over {a,b,c,n.x,l0,l1} and {a,b,n.x,n.y,n.z}; inductive step with <=3 definitions; "
@@ -122,15 +122,16 @@ class State:
         elif kind == "iadd":
             v = self.fresh()
             t = op[1]
+            cur = U.getval(d, t)
             U.assign(r, t, U.getref(r, t).__iadd__(v))
             if t in self.defs:
                 self.defs[t] = ("add", self.defs[t], ("const", v))
                 ex.notes["inplace_on_expr"] = ex.notes.get("inplace_on_expr", 0) + 1
             else:
-                self.last[t] = self.last[t] + v
+                self.last[t] = cur + v
         elif kind == "isubref":
             t, p = op[1], op[2]
-            old = self.defs.get(t, ("const", self.last[t]))
+            old = self.defs.get(t, ("const", U.getval(d, t)))
             ref = U.getref(r, t)
             U.assign(r, t, ref.__isub__(U.getref(r, p)))
             self.defs[t] = ("sub", old, ("loc", p))
@@ -154,7 +155,12 @@ class State:
         ex.notes["step_checked"] = ex.notes.get("step_checked", 0) + 1
         for L in U.ALL_LOCS:
             cur = U.getval(self.d, L)
-            exp = U.ev(self.defs[L], self.d, self.g) if L in self.defs else self.last[L]
+            if L in self.defs:
+                exp = U.ev(self.defs[L], self.d, self.g)
+            elif L in ("l0", "l1") and "l" in self.defs:
+                exp = U.ev(self.defs["l"], self.d, self.g)[int(L[1])]      # the list as a whole is defined
+            else:
+                exp = self.last[L]
             ok = ex.prove(eq(cur, exp), what=f"location {L} != " + ("its definition" if L in self.defs else "last assigned value"))
             if not ok:
                 if ex.mode == "sym":
@@ -199,8 +205,15 @@ EXPECTED_EXC = ()
 def run_history(ex, case):
     st = State(ex, case["build"])
     locs = case["locs"]
+    for op in case.get("prefix", []):
+        st.apply(_tup(op))
+    if case.get("prefix") and not st.check(-1):
+        return
     for k in range(case["K"]):
         ops = list_ops_reduced(st.defs, locs) if case.get("reduced") else list_ops(st.defs, locs, case.get("rich", False))
+        if "l" in st.defs:
+            # excluded by the property: a container that is overwritten as a whole holding an expression-defined member
+            ops = [o for o in ops if not (o[1] in ("l0", "l1") and o[0] in ("expr", "isubref", "iadd", "val")) and o[0] != "replace"]
         if k == 1 and case.get("second") is not None:
             i = case["second"]
         else:
@@ -305,6 +318,14 @@ def _inductive_cases(build, locs, ndefs):
     return out
 
 
+PREFIXES = [
+    [["expr", "a", ["lidx", ["mod", ["abs", ["loc", "b"]], ["const", 2]]]]],
+    [["expr", "c", ["add", ["lidx", ["mod", ["abs", ["loc", "b"]], ["const", 2]]], ["loc", "a"]]]],
+    [["expr", "l", ["pair", ["loc", "a"]]], ["expr", "b", ["add", ["loc", "l1"], ["const", 1]]]],
+    [["expr", "b", ["mul", ["loc", "l0"], ["const", 2]]], ["expr", "l", ["pair", ["loc", "c"]]]],
+]
+
+
 def cases(tier):
     flat = ["a", "b", "n.x", "l0"]
     sib = ["n.x", "n.y", "n.z"]
@@ -316,6 +337,9 @@ def cases(tier):
                 cs.append({"mode": "history", "build": "pure", "locs": ["a", "b", "c"], "K": 5, "first": f1, "second": f2, "reduced": True})
         cs += _hist_cases("pure", flat, 3)
         cs += _hist_cases("pure", sib, 3)
+        for pf in PREFIXES:
+            for c in _hist_cases("pure", ["a", "b", "c", "l0", "l1"], 2):
+                cs.append(dict(c, prefix=pf))
         cs += _inductive_cases("pure", ["a", "b", "n.x", "l0", "l1"], 2)
         cs += [{"mode": "chain", "build": "pure", "shape": "chain", "order": "fwd", "n": 3000},
                {"mode": "chain", "build": "pure", "shape": "chain", "order": "rev", "n": 1200},
